@@ -4,6 +4,7 @@
  * "ip local preference" (position of the address in the interface list) is an input of the case.
  * A failed g_assert is reported as "F" (SIGABRT caught). */
 #include "agent/candidate.c"
+#include "agent/conncheck.c"      /* peer_reflexive_candidate_priority (static): the PRIORITY attribute of the checks the agent sends */
 #include "agent/agent-priv.h"
 #include "agent/conncheck.h"
 #include "agent/stream.h"
@@ -61,6 +62,17 @@ int main (void)
       NiceAgent *ag = g_malloc0 (sizeof (NiceAgent)); NiceCandidate l, r; memset (&l, 0, sizeof l); memset (&r, 0, sizeof r);
       ag->controlling_mode = U (&sv); l.priority = U (&sv); r.priority = U (&sv);
       GUARDED (printf (" %llu", (unsigned long long) agent_candidate_pair_priority (ag, &l, &r))); g_free (ag);
+    }
+    else if (!strcmp (cmd, "Y")) {
+      /* PRIORITY attribute of a check sent from a local candidate: reliable transport ipidx nips component (RFC 5245 compatibility) */
+      gboolean rel = U (&sv); guint tr = U (&sv), ipidx = U (&sv); n_ips = U (&sv); guint comp = U (&sv);
+      NiceAgent *ag = g_malloc0 (sizeof (NiceAgent)); ag->compatibility = NICE_COMPATIBILITY_RFC5245; ag->reliable = rel;
+      NiceCandidateImpl c; memset (&c, 0, sizeof c); c.c.type = NICE_CANDIDATE_TYPE_HOST; c.c.transport = tr; c.c.component_id = comp;
+      char ip[32]; snprintf (ip, sizeof ip, "10.0.0.%u", ipidx);
+      nice_address_set_from_string (&c.c.addr, ip); nice_address_set_from_string (&c.c.base_addr, ip);
+      GUARDED (printf (" %u", peer_reflexive_candidate_priority (ag, &c.c))); g_free (ag);
+      /* second field: what nice_candidate_ice_priority gives a peer-reflexive candidate with this transport, base and component (RFC 8445 7.1.1) */
+      c.c.type = NICE_CANDIDATE_TYPE_PEER_REFLEXIVE; GUARDED (printf (" %u", nice_candidate_ice_priority (&c.c, rel, FALSE)));
     }
     else if (!strcmp (cmd, "X")) {
       CandidateCheckPair a, b; memset (&a, 0, sizeof a); memset (&b, 0, sizeof b); a.priority = U (&sv); b.priority = U (&sv);
